@@ -3,12 +3,14 @@
    To be merged into props/C14.v.  Renaming of type names and labels is proved relative to a
    type-equality relation decided by EqualType and invariant under the renaming (C08's bisimilarity).
    Permutation of the TYPE definitions is proved relative to a type-equality relation decided by
-   EqualType that depends on the environment through lookups only.  The closed forms of these two
-   (VerdictInvariant.verdict_invariant_types_closed_statement, ..._type_order_closed_statement) are not
-   proved here — they follow once C08 provides such a relation: hence the `_partial` names. *)
+   EqualType that depends on the environment through lookups only (the `_partial` theorems), and both
+   are CLOSED with C08's bisimilarity (C14_verdict_invariant_types, C14_verdict_invariant_type_order)
+   for programs whose types are syntactically well-formed (prog_syn_ok; for a renaming also the renamed
+   program: the new names must be LABEL lexemes — "avoiding keywords" at the level of the AST). *)
 Require Import Grits.Base Grits.STypes Grits.Forms Grits.TcDeps Grits.Tc Grits.TcTop Grits.spec.Typing
                Grits.proofs.TypingVerdict Grits.proofs.Equivariance Grits.proofs.DeclPerm
-               Grits.proofs.EquivarianceTypes Grits.proofs.TypePerm Grits.proofs.VerdictInvariant.
+               Grits.proofs.EquivarianceTypes Grits.proofs.TypePerm Grits.proofs.VerdictInvariant
+               Grits.spec.SynOk Grits.proofs.TypingBisim Grits.proofs.BisimInvariance.
 
 Theorem C14_typing_equivariant_partial : forall teq r r' rf rf' p, bijection r r' -> bijection rf rf' ->
   (ProgOK teq p <-> ProgOK teq (ren_program r rf p)).
@@ -40,6 +42,18 @@ Theorem C14_verdict_invariant_type_order_partial : forall teq p D',
   (accepts p <-> accepts (with_types p D')).
 Proof. exact verdict_invariant_type_order. Qed.
 
+(* ---- closed with C08 (bisimilarity), for programs whose types are syntactically well-formed *)
+Theorem C14_verdict_invariant_type_order : forall p D', prog_syn_ok p = true ->
+  Permutation.Permutation (p_types p) D' -> (accepts p <-> accepts (with_types p D')).
+Proof. exact verdict_invariant_type_order_closed. Qed.
+
+Theorem C14_verdict_invariant_types : forall rt rt' rl rl' p,
+  prog_syn_ok p = true -> prog_syn_ok (rent_program rt rl p) = true ->
+  bijection_t rt rt' -> bijection_t rl rl' -> (accepts p <-> accepts (rent_program rt rl p)).
+Proof. exact verdict_invariant_types_closed. Qed.
+
+Print Assumptions C14_verdict_invariant_type_order.
+Print Assumptions C14_verdict_invariant_types.
 Print Assumptions C14_verdict_invariant_type_order_partial.
 Print Assumptions C14_typing_equivariant_types_partial.
 Print Assumptions C14_verdict_invariant_types_partial.
